@@ -560,6 +560,7 @@ class RT:
         self.limited = False
         self.idcols = []  # cids of unique, non-null source id columns still in scope
         self.agg_cols = set()  # columns made by the last ungrouped summarize (bookkeeping for K03)
+        self.const_cols = set()  # columns defined by a literal-only expression (bookkeeping for K05)
 
     def copy(self):
         t = RT()
@@ -578,6 +579,7 @@ class RT:
         t.limited = self.limited
         t.idcols = list(self.idcols)
         t.agg_cols = set(self.agg_cols)
+        t.const_cols = set(self.const_cols)
         return t
 
     def names(self):
@@ -1122,11 +1124,18 @@ def _new_cols(env, t, items, vecs):
 
 
 def _v_mutate(env, t, step):
+    from .ir import walk_expr
+
     ev = Evaluator(env, t, "mutate")
     vecs = [ev.rows(e) for _, e in step["items"]]
+    n_before = set(t.scope)
     # a mutate that overwrites a visible column keeps its position?  documented: adds
     # new columns; the implementation appends.  (checked against both backends)
     _new_cols(env, t, step["items"], vecs)
+    vis = t.vis()
+    for name, e in step["items"]:
+        if not any(nd[0] == "col" for nd in walk_expr(e)):
+            t.const_cols.add(vis[name])
 
 
 def _v_filter(env, t, step):
